@@ -123,6 +123,18 @@ def main():
     mod = importlib.import_module('props.' + pid.lower())
     ctx = Ctx(pid, tier, seed)
 
+    # a check never hangs: a changed tree can make a library call loop (e.g. evaluation of a cyclic result);
+    # past the limit the run is abandoned with exit 2 (infrastructure outcome, neither "held" nor "violated")
+    import signal
+    limit = int(os.environ.get('VERIF_TIME_LIMIT', '2400' if tier == 'quick' else '28000'))
+
+    def _timeout(signum, frame):
+        print(f'INFRA: time limit of {limit}s exceeded (tier {tier}); no verdict')
+        sys.stdout.flush()
+        os._exit(2)
+    signal.signal(signal.SIGALRM, _timeout)
+    signal.alarm(limit)
+
     # ---- 1. regenerate + build + audit
     rc, out = common.regenerate_tables()
     if rc != 0:
